@@ -107,8 +107,8 @@ func C08(r *core.Run) {
 		r.Finish(1)
 	}
 	defer md.Close()
-	kinds := []string{"500", "503-empty-body", "garbage", "reset", "long-outage", "mixed", "404-empty-body", "500", "hang", "completions-during-outage", "error-text-looks-like-cancellation"}
-	nScripts := r.Pick(11, 22)
+	kinds := []string{"500", "503-empty-body", "garbage", "reset", "long-outage", "mixed", "404-empty-body", "500", "hang", "completions-during-outage", "error-text-looks-like-cancellation", "same-id-relisted"}
+	nScripts := r.Pick(12, 24)
 	var wg sync.WaitGroup
 	for si := 0; si < nScripts; si++ {
 		wg.Add(1)
@@ -216,6 +216,25 @@ func c08Script(r *core.Run, agentBin string, md *fakes.Metadata, si, rep int, ki
 			px.Store(id, tokRequest("GET", id, 50, d, "c08.example", nil, nil), "")
 		}
 	}
+	relist := false
+	if kind == "same-id-relisted" {
+		// the first list call hands out one request that stays at the backend for the whole script, and every later
+		// successful list call names that same, still unanswered request again (as the proxy does): such a reply is a
+		// success like any other - the failure streak that follows it starts from the shortest delay
+		script = append([]bool{true}, script...)
+		resetIdx++
+		relist = true
+		tb, err := newTokBackend()
+		if err != nil {
+			r.Broken(err.Error())
+			return false, false
+		}
+		defer tb.Srv.Close()
+		backendAddr = tb.Srv.Addr()
+		id := fmt.Sprintf("s%dc8held%d-%d", r.Seed, si, rep)
+		slowIDs = append(slowIDs, id)
+		px.Store(id, tokRequest("GET", id, 50, 40000, "c08.example", nil, nil), "")
+	}
 	var mu sync.Mutex
 	var arrivals []time.Time
 	idx := 0
@@ -228,7 +247,7 @@ func c08Script(r *core.Run, agentBin string, md *fakes.Metadata, si, rep int, ki
 		// One connection per list call: Go's transport transparently re-sends an idempotent request
 		// when a *reused* connection is reset, which would show up as a second arrival without a sleep.
 		w.Header().Set("Connection", "close")
-		if i == 0 && len(slowIDs) > 0 {
+		if (i == 0 || relist && (i >= len(script) || script[i])) && len(slowIDs) > 0 {
 			b, _ := json.Marshal(slowIDs)
 			w.WriteHeader(200)
 			w.Write(b)
@@ -245,7 +264,7 @@ func c08Script(r *core.Run, agentBin string, md *fakes.Metadata, si, rep int, ki
 			return true
 		}
 		k := kind
-		if k == "long-outage" || k == "completions-during-outage" {
+		if k == "long-outage" || k == "completions-during-outage" || k == "same-id-relisted" {
 			k = "500"
 		}
 		if k == "mixed" {
